@@ -27,10 +27,12 @@ class Raised(Exception):
 class Record:
     """Abstract object with named attributes (an attrs instance, an attrs.Attribute ...)."""
 
-    def __init__(self, cls_name: str, fields: dict, classes: "dict | None" = None):
+    def __init__(self, cls_name: str, fields: dict, classes: "dict | None" = None, slotted: bool = False):
         self.cls_name = cls_name
         self.fields = dict(fields)
         self.classes = classes
+        # slotted=True mimics @attrs.define classes: assigning an undeclared attribute raises AttributeError
+        self.frozen_attrs = set(fields) if slotted else None
 
     def __repr__(self):
         return f"<Record {self.cls_name} {self.fields}>"
@@ -200,6 +202,29 @@ class Interp:
             return
         elif isinstance(st, ast.FunctionDef):
             env[st.name] = Closure(st, env, self)
+        elif isinstance(st, ast.Try):
+            if st.finalbody:
+                raise AnalysisError(f"{self.name}:{st.lineno}: try/finally is outside the subset")
+            try:
+                self.exec_block(st.body, env)
+            except Raised as e:
+                for h in st.handlers:
+                    names = []
+                    if h.type is None:
+                        names = None
+                    elif isinstance(h.type, ast.Tuple):
+                        names = [_dotted(x) for x in h.type.elts]
+                    else:
+                        names = [_dotted(h.type)]
+                    if names is None or e.exc_name in names or "Exception" in names or "BaseException" in names:
+                        if h.name:
+                            env[h.name] = Record(e.exc_name, {"args": e.exc_args})
+                        self.exec_block(h.body, env)
+                        break
+                else:
+                    raise
+            else:
+                self.exec_block(st.orelse, env)
         elif isinstance(st, ast.With):
             # context managers are opaque (locks): the body runs exactly once
             for item in st.items:
@@ -222,6 +247,14 @@ class Interp:
                 raise Raised("ValueError", ("unpack",))
             for t, x in zip(target.elts, vs):
                 self.assign(t, x, env)
+        elif isinstance(target, ast.Attribute):
+            obj = self.eval(target.value, env)
+            if not isinstance(obj, Record):
+                raise AnalysisError(f"{self.name}: attribute assignment on {type(obj).__name__}")
+            if obj.frozen_attrs is not None and target.attr not in obj.frozen_attrs and target.attr not in obj.fields:
+                # mimics a slotted attrs class: unknown attributes cannot be created
+                raise Raised("AttributeError", (target.attr,))
+            obj.fields[target.attr] = v
         elif isinstance(target, ast.Subscript):
             obj = self.eval(target.value, env)
             idx = self.eval(target.slice, env)
@@ -249,7 +282,7 @@ class Interp:
         if name in HOST_TYPES:
             return HOST_TYPES[name]
         if name in ("isinstance", "hasattr", "len", "any", "all", "repr", "sorted", "min", "max",
-                    "enumerate", "zip", "range", "abs", "getattr", "filter", "map"):
+                    "enumerate", "zip", "range", "abs", "getattr", "filter", "map", "next"):
             return ("builtin", name)
         if name == "NotImplemented":
             return NotImplemented
@@ -488,7 +521,7 @@ class Interp:
             return ("strmethod", obj, a)
         if isinstance(obj, _re.Pattern) and a == "sub":
             return ("patsub", obj)
-        if isinstance(obj, dict) and a in ("get", "items", "keys", "values"):
+        if isinstance(obj, dict) and a in ("get", "items", "keys", "values", "setdefault", "update", "pop"):
             return ("dictmethod", obj, a)
         if isinstance(obj, list) and a in ("append", "extend", "index", "count"):
             return ("listmethod", obj, a)
@@ -678,6 +711,13 @@ class Interp:
             return list(zip(*[self.iterate(a) for a in args]))
         if name == "range":
             return list(range(*args))
+        if name == "next":
+            try:
+                return next(*args)
+            except StopIteration:
+                raise Raised("StopIteration", ())
+            except TypeError as e:
+                raise Raised("TypeError", e.args)
         if name == "filter":
             fn, it = args
             if fn is None:
